@@ -114,7 +114,7 @@ func (d *driver) hookCases(w *world, stNode int, run string, h hookDef) {
 	for i, u := range dry.units {
 		shape[i] = shapeRec{I: u.Idx, Parent: u.Parent, N: u.N, Start: u.Start}
 	}
-	dryNode := d.log.Add(stNode, run, "Dry", map[string]interface{}{"state": d.state, "hook": h.name},
+	dryNode := d.log.Add(stNode, run, "Dry", map[string]interface{}{"state": d.state, "hook": h.name, "gate150": w.Height%150 == 0, "h": w.Height},
 		map[string]interface{}{"returned": rr.Returned, "panicS": rr.PanicS, "panicK": panicKind(rr.PanicS)},
 		map[string]interface{}{"digest": rr.Digest, "digest2": rr2.Digest, "nunits": len(dry.units), "shape": shape})
 	d.stats["dry"]++
@@ -249,6 +249,7 @@ func Main(args []string) int {
 			d.items(w, stNode, run)
 			d.facets(w, stNode, run)
 			d.stages(w, stNode, run)
+			d.starters(w, stNode, run)
 			d.blocks(w, stNode, run, []time.Duration{6 * time.Second, 6 * time.Second, time.Duration(p.Gap) * time.Second}, nil)
 			d.blocks(w, stNode, run, []time.Duration{6 * time.Second, 6 * time.Second}, []int64{14400 * (1 + w.Height/14400), 0})
 		}
